@@ -12,7 +12,7 @@ def _case(impl_lines, name):
         if l.startswith('# case'):
             on = (l.strip() == f'# case {name}')
             continue
-        if on:
+        if on and l.strip():
             out.append(l)
     return out
 
